@@ -218,10 +218,25 @@ def r02_6(run, model):
 
 # Go name slots whose value is legitimately not produced by go_ident / a *_name constructor (function, struct, field -> reason)
 NAME_LEDGER = {
-    ("compile_cexpr", "Var", "name"): "qualified name of an extern Go function: `<package alias>.<go_name>`, where go_name is the Go identifier the user wrote in the extern declaration",
-    ("go_file", "Field", "name"): "field names taken out of the GoType::TStruct built by tuple_to_go_struct_type (compiler-chosen `_N`)",
-    ("go_file", "Struct", "name"): "struct name taken out of the GoType::TStruct built by tuple_to_go_struct_type (go_type_name_for)",
+    # (function, node, slot): (what the provenance must mention, reason)
+    ("compile_cexpr", "Var", "name"): (r"go_package_alias", "qualified name of an extern Go function: `<package alias>.<go_name>`, where go_name is the Go identifier the user wrote in the extern declaration"),
+    ("go_file", "Field", "name"): (r"`field_name`", "field names taken out of the GoType::TStruct built by tuple_to_go_struct_type (compiler-chosen `_N`)"),
+    ("go_file", "Struct", "name"): (r"`name`", "struct name taken out of the GoType::TStruct built by tuple_to_go_struct_type (go_type_name_for)"),
 }
+
+
+def _tuple_tails(e):
+    if e["k"] == "If" and e.get("else") is not None:
+        return _tuple_tails(e["then"]) + _tuple_tails(e["else"])
+    if e["k"] == "Match":
+        return [t for a in e["arms"] for t in _tuple_tails(a["body"])]
+    if e["k"] == "Block":
+        if e["stmts"] and e["stmts"][-1]["k"] == "ExprStmt" and not e["stmts"][-1].get("semi"):
+            return _tuple_tails(e["stmts"][-1]["expr"])
+        return []
+    if e["k"] == "Paren":
+        return _tuple_tails(e["expr"])
+    return [e]
 
 
 def sanctioned_name_fns(model):
@@ -314,6 +329,20 @@ def r02_8(run, model):
             defs = [l for l in S.find(fn.body, "Local") if v in S.pat_bindings(l["pat"]) and l.get("init") is not None]
             if defs:
                 for d in defs:
+                    dp = S.strip_refs(d["pat"])
+                    if dp["k"] == "PTuple":
+                        # `let (helper, helper_ty) = if .. { (a, b) } else { (c, d) }`: the component at the binder's position
+                        pos = [i_ for i_, pe in enumerate(dp["elems"]) if v in S.pat_bindings(pe)]
+                        comps = _tuple_tails(d["init"])
+                        if len(pos) == 1 and comps and all(t_["k"] == "Tuple" and len(t_["elems"]) == len(dp["elems"]) for t_ in comps):
+                            ok, why = True, "tuple component built safely"
+                            for t_ in comps:
+                                ok, why = safe(fn, t_["elems"][pos[0]], depth + 1, set(seen))
+                                if not ok:
+                                    break
+                            if not ok:
+                                return False, f"`{v}` <- {why}"
+                            continue
                     ok, why = safe(fn, d["init"], depth + 1, seen)
                     if not ok:
                         return False, f"`{v}` <- {why}"
@@ -334,6 +363,9 @@ def r02_8(run, model):
                 n += 1
                 ok, why = safe(fn, fl["expr"])
                 led = NAME_LEDGER.get((fn.name, st["segs"][-1], fl["name"]))
+                if led is not None and not re.search(led[0], why):
+                    led = None      # the entry excuses one way of building the name, not the slot
+                led = led[1] if led is not None else None
                 if ok:
                     continue
                 run.ob("R02.8", f"{fn.name}|{st['segs'][-1]}.{fl['name']} <- {why}", led is not None, site(GOC, fl["sp"]),
